@@ -556,6 +556,26 @@ def linesAnc (st : St) : Nat → Nat → Option Nat
         | none => none
         | some p => linesAnc st f p
 
+/-! ### the legacy alias `file.fd` of `file.set.0.fd` -/
+
+/-- clear_attr(gattr(ctx, GKI_file_fd)) -/
+def clearFileFd (h : HashFn) (st : St) (dict : Nat) : St :=
+  match lookup h st dict (some "file.fd") with
+  | some a => clearAttr st a
+  | none => st
+
+/-- The alias rule of num_files_post_hook: `file.fd` describes a file set of exactly one file. -/
+def numFilesAlias (h : HashFn) (st : St) (dict : Nat) (n : Nat) : St :=
+  if n != 1 then clearFileFd h st dict else st
+
+/-- clear_attr with the clear hook of the descriptor attributes (fdset_clear_hook): when the cleared subtree
+    holds `file.set.0.fd`, its legacy alias `file.fd` is cleared with it. -/
+def clearHooked (h : HashFn) (st : St) (dict : Nat) (a : Nat) : St :=
+  let s1 := clearAttr st a
+  match lookup h st dict (some "file.set.0.fd") with
+  | some f => if isUnder st.nodes a st.next f then clearFileFd h s1 dict else s1
+  | none => s1
+
 /-- set_attr with the hooks that change the tree.  `blobText` is the content
     of the blob when a VMCOREINFO raw attribute is set. -/
 def setHooked (h : HashFn) (st : St) (dict : Nat) (i : Nat) (persist : Bool) (val : String)
@@ -586,6 +606,7 @@ def setHooked (h : HashFn) (st : St) (dict : Nat) (i : Nat) (persist : Bool) (va
           match linesAnc st2 st2.next i with
           | some ld => linesPost h st2 dict i ld
           | none => (st2, .ok)
+        | .numFiles => (numFilesAlias h st2 dict (numOfTok val), .ok)
         | _ => (st2, .ok)
     | (st1, e) => (st1, e)
 
@@ -606,7 +627,7 @@ def checkSet (h : HashFn) (st : St) (dict : Nat) (i : Nat) (tok : String) (blobT
   | none => (st, .nokey)
   | some n =>
     let ty := tyOfTok tok
-    if ty == .nil then (clearAttr st i, .ok)
+    if ty == .nil then (clearHooked h st dict i, .ok)
     else if ty != n.ty then (st, .invalid)
     else setHooked h st dict i true tok blobText
 
@@ -747,7 +768,7 @@ def openFd (h : HashFn) (st : St) (dict : Nat) (fdTok : String) (prov : List Pro
     -- clear_all_fds
     let st1 := ((children st.nodes fset).filter (·.ty == .dir)).foldl (fun s d =>
       match lookupDir h s dict d.id "fd" with
-      | some fd => clearAttr s fd
+      | some fd => clearHooked h s dict fd
       | none => s) st
     let (st2, _) := setHooked h st1 dict num true "num:1"
     let st3 := ((children st2.nodes fset).filter (·.ty == .dir)).foldl (fun s d =>
@@ -774,5 +795,22 @@ def openFdFailed (h : HashFn) (st : St) (dict : Nat) (fdTok : String) (prov : Li
   match rootOf s dict with
   | some root => clearVolatile s root
   | none => s
+
+/-- kdump_set_attr(ctx, "file.fd", fd), the legacy way to open a dump: the value is stored (persistent), then
+    file_fd_post_hook opens a one-file set with it (`openFd`, whose clear_all_fds clears the alias again when a slot 0
+    exists already); the slot shares the value storage with `file.fd`, so the hook marks the alias as set again.
+    Setting the value it already has runs no hook. -/
+def setFileFd (h : HashFn) (st : St) (dict : Nat) (fdTok : String) (prov : List Provided) : St :=
+  match lookup h st dict (some "file.fd") with
+  | none => st
+  | some a =>
+    match st.get a with
+    | none => st
+    | some n =>
+      let s1 := setPlain st a true fdTok
+      if hasValue n fdTok then s1
+      else
+        let s2 := openFd h s1 dict fdTok prov
+        { s2 with nodes := upd s2.nodes a (fun m => { m with isset := true }) }
 
 end Kdf.Model.Attr
